@@ -155,16 +155,6 @@ def isZero : Expr → Bool
   | .zero => true
   | _ => false
 
-/-- stable insertion (Python's `sorted` keeps the input order of elements that compare equal): `x` goes before
-the first element that is not smaller than it -/
-def insertStable {α} (lt : α → α → Bool) (x : α) : List α → List α
-  | [] => [x]
-  | y :: ys => if lt y x then y :: insertStable lt x ys else x :: y :: ys
-
-/-- stable insertion sort (`Y0.sortBy` of Model/Expr is not stable: it moves an earlier element behind later
-elements with an equal key) -/
-def sortStable {α} (lt : α → α → Bool) (l : List α) : List α := l.foldr (insertStable lt) []
-
 /-! From here on everything is parametric in `lt`, the model of `Expression.__lt__` that `Product.safe` sorts with
 (`exprLt` above for the pinned `_get_key`; `Expr.ltE` of Y0.Model.Dsl for the total structural key of the `expr`
 family's fix).  No theorem of C12 depends on which order it is. -/
@@ -179,7 +169,7 @@ def productSafe (es : List Expr) : Expr :=
   else match es with
     | [] => .one
     | [e] => e
-    | es => .prod (sortStable lt es)
+    | es => .prod (sortBy lt es)
 
 /-- `Fraction(n, d)` with its `__post_init__` -/
 def mkFrac (n d : Expr) : E Expr :=
@@ -305,29 +295,33 @@ def andOp (a b : Val) : E Val := do
   let d ← mkDist (upgradeOrdering (c ++ cs)) p
   pure (.dist d.1 d.2)
 
+def isDistVal : Val → Bool
+  | .dist .. => true
+  | _ => false
+
+/-- `Distribution.safe`, first argument a variable or a distribution: `extended_args = [distribution, *args]` -/
+def distSafeExt (ext : List Val) : E (List Var × List Var) :=
+  match (ext.filter isDistVal).length with
+  | 0 => do mkDist (upgradeOrdering (← ext.mapM asVar)) []
+  | 1 =>
+    let pre := ext.takeWhile (fun x => !isDistVal x)
+    match ext.dropWhile (fun x => !isDistVal x) with
+    | .dist dc dp :: post => do
+      let pre' ← pre.mapM asVar
+      let post' ← post.mapM asVar
+      mkDist (sortedVars (upgradeOrdering pre' ++ dc)) (sortedVars (dp ++ upgradeOrdering post'))
+    | _ => .error (.internal "distSafe")
+  | _ => .error (valueError "can not give multiple distribution objects")
+
 /-- `Distribution.safe(distribution, *args)` -/
 def distSafe : List Val → E (List Var × List Var)
   | [] => .error (typeError "missing 1 required positional argument")
   | .tuple xs :: args =>
     if !args.isEmpty then .error (valueError "can not use args/parents when giving an iterable as first argument")
     else do mkDist (upgradeOrdering (← xs.mapM asVar)) []
-  | first :: args =>
-    match first with
-    | .var _ | .dist .. =>
-      let ext := first :: args
-      let isDist : Val → Bool := fun x => match x with | .dist .. => true | _ => false
-      match (ext.filter isDist).length with
-      | 0 => do mkDist (upgradeOrdering (← ext.mapM asVar)) []
-      | 1 =>
-        let pre := ext.takeWhile (fun x => !isDist x)
-        match ext.dropWhile (fun x => !isDist x) with
-        | .dist dc dp :: post => do
-          let pre' ← pre.mapM asVar
-          let post' ← post.mapM asVar
-          mkDist (sortedVars (upgradeOrdering pre' ++ dc)) (sortedVars (dp ++ upgradeOrdering post'))
-        | _ => .error (.internal "distSafe")
-      | _ => .error (valueError "can not give multiple distribution objects")
-    | _ => .error (typeError "not iterable")
+  | .var v :: args => distSafeExt (.var v :: args)
+  | .dist c p :: args => distSafeExt (.dist c p :: args)
+  | _ :: _ => .error (typeError "not iterable")
 
 /-- `Probability.safe(*args, interventions=ivs)` followed by the builder's own wrapping -/
 def probSafe (pop : Option Var) (ivs : Option Val) (args : List Val) : E Val := do
@@ -463,6 +457,87 @@ def parseY0 (ts : List Tok) : E Expr :=
   | .error e => .error (.invalidInput ("SyntaxError " ++ e))
   | .ok a => evalExpr lt a
 
+end
+
+/-! ### the expressions the public builders produce (`built`), and the simple-division family (`simple`)
+
+Decidable, so that the harness can ask the model whether a Python-built object lies in the domain of the theorems
+(correspondence stream `domain`). -/
+
+/-- strictly increasing along the list -/
+def incBy {α} (f : α → Nat) : List α → Bool
+  | [] => true
+  | [_] => true
+  | x :: y :: r => decide (f x < f y) && incBy f (y :: r)
+
+/-- no adjacent pair is in descending order: what a stable sort leaves untouched -/
+def noDescent {α} (lt : α → α → Bool) : List α → Bool
+  | [] => true
+  | [_] => true
+  | x :: y :: r => !lt y x && noDescent lt (y :: r)
+
+/-- a variable as the operators build it: subscripts mention a name once (kept sorted); a value mark without
+subscripts is an `Intervention` instance; a counterfactual variable is not -/
+def canonVar (v : Var) : Bool :=
+  incBy Iv.name v.ivs && (if v.ivs.isEmpty then v.isIv == v.star.isSome else !v.isIv)
+
+/-- a plain `Variable(name)` -/
+def plainVar (v : Var) : Bool := v.star.isNone && !v.isIv && v.ivs.isEmpty
+
+def canonPop : Option Var → Bool
+  | none => true
+  | some v => canonVar v
+
+def isFrac : Expr → Bool
+  | .frac .. => true
+  | _ => false
+
+section
+variable (lt : Expr → Expr → Bool)
+
+mutual
+/-- invariants of every object reachable through `P`, `PP`, `Sum[...]`, `Q[...]`, `One()`, `Zero()`, `*`, `/` when each
+distribution / subscript / range / Q-(co)domain mentions a name at most once: children, parents, ranges, (co)domains
+sorted by name; products flat, of two or more factors that are neither constants nor products, left in the order a
+stable sort by `lt` leaves them; no `Zero()` under a `Sum` or as a denominator -/
+def built : Expr → Bool
+  | .prob pop c p => !c.isEmpty && incBy Var.name c && incBy Var.name p && c.all canonVar && p.all canonVar && canonPop pop
+  | .prod fs => decide (2 ≤ fs.length) && builtFactors fs && noDescent lt fs
+  | .sum e rs => !rs.isEmpty && incBy Var.name rs && rs.all plainVar && built e && !isZero e
+  | .frac n d => built n && built d && !isZero d
+  | .one => true
+  | .zero => true
+  | .q dom cod => !dom.isEmpty && !cod.isEmpty && incBy Var.name dom && incBy Var.name cod && dom.all canonVar && cod.all canonVar
+def builtFactors : List Expr → Bool
+  | [] => true
+  | f :: fs => built f && !Print.isProd f && !isOne f && !isZero f && builtFactors fs
+end
+
+end
+
+mutual
+/-- no division anywhere -/
+def divFree : Expr → Bool
+  | .prod fs => divFreeAll fs
+  | .sum e _ => divFree e
+  | .frac .. => false
+  | _ => true
+def divFreeAll : List Expr → Bool
+  | [] => true
+  | f :: fs => divFree f && divFreeAll fs
+end
+
+mutual
+/-- the simple-division family of C12: every division has division-free, non-constant operands and is not itself a
+factor of a product -/
+def simple : Expr → Bool
+  | .prod fs => simpleFactors fs
+  | .sum e _ => simple e
+  | .frac n d => divFree n && divFree d && !isOne n && !isZero n && !isOne d && !isZero d
+  | _ => true
+def simpleFactors : List Expr → Bool
+  | [] => true
+  | f :: fs => !isFrac f && simple f && simpleFactors fs
 end
 
 end PyEval
